@@ -183,6 +183,25 @@ def run(tier, seed):
                 if o != "ok":
                     ofail.append({"config": text, "events": g.events_json(evs), "auditor": m["name"], "markers": ",".join(mk),
                                   "oracle": o, "shape": shape, "open_at_end": bool(mk) and mk[-1] != "E"})
+                # O': an expectation that reads signals only is judged on samples made in the period, nothing else:
+                # every report of a period other than its end-of-period judgement carries the time of a round that
+                # brought a sample of every signal the predicate reads
+                pdeps = g.deps(m["expect"][1]) if m["expect"] else []
+                if pdeps and all(a for a, _ in pdeps):
+                    fresh = [float(e[1]) for e in evs if e[0] == "sig" and all(any((a_, s_) == (va, vs) for (_, va, vs, _) in e[2]) for (a_, s_) in pdeps)]
+                    cur, stale = None, []
+                    for it in im["stream"]:
+                        if it[0] == "start" and it[1] == m["name"]:
+                            cur = []
+                        elif it[0] == "rep" and it[2] == m["name"] and cur is not None:
+                            cur.append(float(it[1]))
+                        elif it[0] == "stop" and it[1] == m["name"] and cur is not None:
+                            stale += [t for t in cur[:-1] if not any(abs(t - f) < 1e-6 for f in fresh)]
+                            cur = None
+                    rep.count("signal-only expectation judged")
+                    if stale:
+                        ofail.append({"config": text, "events": g.events_json(evs), "auditor": m["name"], "markers": ",".join(mk),
+                                      "oracle": "FAIL judged at %s although no sample of %s arrived in that round" % (stale[:3], pdeps), "shape": "stale-observation", "open_at_end": False})
         rep.sample({"config": text, "events": len(evs), "markers": {m["name"]: ",".join(markers(im["stream"], m["name"])) for m in cfg["members"]}}, cap=3)
     rep.obligation("K-C02: real audit loop vs model on the start/report/stop stream (%d histories)" % len(cases), "K", not kdis, json.dumps(kdis[:2])[:1800])
     rep.obligation("O-C02: periods bracketed, explainable from a fresh start, closed at the end (real stream)", "O", not ofail, json.dumps(ofail[:2])[:1800])
